@@ -2608,6 +2608,14 @@ class SequenceAndSetBase(base.ConstructedAsn1Type):
                 if isinstance(value, base.ConstructedAsn1Type):
                     value = value.clone(cloneValueFlag=componentType[idx].isDefaulted)
 
+                    # the placeholder for an unset OPTIONAL component is
+                    # not a value yet: a record type without mandatory
+                    # components of its own would otherwise turn the
+                    # component present by merely reading it
+                    if (componentType[idx].isOptional and
+                            isinstance(value, SequenceAndSetBase)):
+                        value.reset()
+
             elif currentValue is noValue:
                 raise error.PyAsn1Error('Component type not defined')
 
